@@ -1837,8 +1837,14 @@ func patchCode(context *funcContext) { // {{{
 			continue
 		case OP_SETGLOBAL, OP_SETUPVAL, OP_EQ, OP_LT, OP_LE, OP_TEST,
 			OP_TAILCALL, OP_RETURN, OP_FORPREP, OP_FORLOOP, OP_TFORLOOP,
-			OP_SETLIST, OP_CLOSE:
+			OP_CLOSE:
 			/* nothing to do */
+		case OP_SETLIST:
+			if opGetArgC(inst) == 0 { // the next word is the batch number, not an instruction
+				pc++
+				moven = 0
+				continue
+			}
 		case OP_CALL:
 			if reg := opGetArgA(inst) + opGetArgC(inst) - 2; reg > maxreg {
 				maxreg = reg
